@@ -8,10 +8,10 @@ import (
 
 func init() {
 	register(&Property{
-		ID: "C06",
+		ID:          "C06",
 		Explanation: "Decides structural necessary conditions of ReadIndex safety: the leader records a ReadIndex request only after the 'committed an entry in the current term' test (and never for a witness); every producer of a ready-to-read record is one of the three classified shapes (single-node leader, quorum-confirmed request, leader's ReadIndexResp); the confirmation routine releases requests only on the quorum-reached edge, is fed r.quorum() and counts distinct senders; every role or term change passes reset, which discards the pending read table on every path; ReadIndex context hints go to voting members only; the client-side release happens only under index>0 && index<=applied. Does not decide freshness over schedules.",
-		NotCovered: "that the captured commit index is fresh under arbitrary message schedules and deposed leaders",
-		Run:        runC06,
+		NotCovered:  "that the captured commit index is fresh under arbitrary message schedules and deposed leaders",
+		Run:         runC06,
 	})
 }
 
@@ -213,47 +213,8 @@ func runC06(e *Engine, r *Report) {
 	}
 
 	// ---- ctx hints go to voting members only
-	votingMembers := r.need(raftT + "votingMembers")
-	sendHB := r.need(raftT + "sendHeartbeatMessage")
-	nonVotings := r.needField("internal/raft", "raft", "nonVotings")
-	if votingMembers != nil && sendHB != nil && nonVotings != nil {
-		n = 0
-		for _, s := range e.CallerSites(sendHB) {
-			args := s.Common().Args
-			if len(args) < 3 {
-				continue
-			}
-			n++
-			// the hint argument is either the zero ctx, or the target ranges over votingMembers()
-			hint := args[2]
-			isZero := false
-			if ld, ok := hint.(*ssa.UnOp); ok {
-				if al, ok := ld.X.(*ssa.Alloc); ok {
-					// a local zero-valued composite: no stores other than zero init
-					isZero = true
-					for _, ref := range *al.Referrers() {
-						if _, ok := ref.(*ssa.Store); ok {
-							isZero = false
-						}
-						if fa, ok := ref.(*ssa.FieldAddr); ok {
-							for _, r2 := range *fa.Referrers() {
-								if _, ok := r2.(*ssa.Store); ok {
-									isZero = false
-								}
-							}
-						}
-					}
-				}
-			}
-			if c, ok := hint.(*ssa.Const); ok && c.Value == nil {
-				isZero = true
-			}
-			toVoting := e.dependsOn(args[1], e.callV(votingMembers), 0) && !e.dependsOn(args[1], func(v ssa.Value) bool { return fieldV(nonVotings)(v) }, 0)
-			r.check(isZero || toVoting, "GD-hint-voting", "heartbeat hint in "+fname(s.Parent())+" #"+e.ipos(s), e.ipos(s),
-				"a non-zero ReadIndex hint is sent only to votingMembers()", "a ReadIndex hint may be sent to a member that is not in votingMembers()")
-		}
-		r.floor("GD-hint-voting", n, 2)
-	}
+	ruleHintVoting(e, r)
+	ruleAppliedArg(e, r)
 
 	// ---- client side: release only when applied has reached the index
 	rbIndex := r.needField("dragonboat", "readBatch", "index")
